@@ -344,13 +344,20 @@ class Impl:
             self.solver.initialize()
         return self.solver
 
+    def rename(self, exprs):
+        """canonical renaming of uuid / fresh names (DESIGN 3.2)"""
+        if getattr(self, '_pairs', None) is None:
+            self._pairs = self.rename_pairs()
+        out = []
+        for a in exprs:
+            if not isinstance(a, z3.ExprRef):
+                a = z3.BoolVal(bool(a))
+            out.append(z3.substitute(a, *self._pairs) if self._pairs else a)
+        return out
+
     def assertions(self):
         """solver assertions after initialize(), canonically renamed"""
-        raw = list(self.solver._solver.assertions())
-        pairs = self.rename_pairs()
-        if not pairs:
-            return raw
-        return [z3.substitute(a, *pairs) for a in raw]
+        return self.rename(list(self.solver._solver.assertions()))
 
 
 def _from_library(e):
